@@ -5,7 +5,6 @@ package sm3_test
 // GB/T 32905, anchored to the standard's vectors) over the model.
 
 import (
-	"strconv"
 	"bytes"
 	"encoding/json"
 	"fmt"
@@ -13,6 +12,7 @@ import (
 	"io"
 	"os"
 	"path/filepath"
+	"strconv"
 	"syscall"
 	"testing"
 
@@ -242,7 +242,6 @@ func TestVerif_C04_LongMessage(t *testing.T) {
 		}
 	}
 }
-
 
 // Messages of 2^29 and more ZERO bytes (read-only anonymous pages) against digests computed once with OpenSSL (static vectors):
 // the bit length no longer fits in 32 bits.
